@@ -90,6 +90,9 @@ def gen_sprite(rng: random.Random, *, max_canvas=10, max_layers=6, max_frames=4,
     if kind in ("new", "both", "both_rev"):
         first = rng.choice([0, 0, 1, 3, 250]) if depth != 8 else rng.choice([0, 0, 0, 2])
         n = rng.randint(1, 12)
+        if rng.random() < 0.2:
+            # entries beyond index 255 (the format stores 32-bit indices): a pixel byte k must not pick up entry 256 + k
+            first, n = rng.choice([0, 0, 2, 250]), rng.choice([257, 260, 300])
         entries = []
         for i in range(n):
             a = rng.choice([255, 255, 255, 0, 128, rng.randint(0, 255)])
@@ -258,7 +261,7 @@ def default_choices() -> dict:
 
 
 def random_choices(rng: random.Random) -> dict:
-    return {"count_mode": rng.choice(["both", "old", "new"]), "ignorable": rng.choice([0.0, 0.2, 0.5]),
+    return {"count_mode": rng.choice(["both", "old", "new", "newany"]), "ignorable": rng.choice([0.0, 0.2, 0.5]),
             "tails": rng.choice([0.0, 0.3, 0.8]), "trailer": bytes(rng.randrange(256) for _ in range(rng.choice([0, 1, 17]))),
             "unused": rng.random() < 0.5, "pixel_ratio": rng.choice([(1, 1), (0, 0), (0, 7), (3, 0)]),
             "zlevels": rng.choice([[6], [0], [1], [9], [0, 1, 6, 9], ["stored"]]), "cel_storage": rng.choice([None, "raw", "zlib"]),
@@ -378,7 +381,14 @@ def build(s: dict, ch: Optional[dict] = None, rng: Optional[random.Random] = Non
             chunks.extend(g)
         dc = decorate(chunks)
         # an empty frame cannot say "use the new field" (new = 0 means "use the old field")
-        cm = "both" if (not dc and ch["count_mode"] == "new") else ch["count_mode"]
+        cm = "both" if (not dc and ch["count_mode"] in ("new", "newany")) else ch["count_mode"]
+        if cm == "newany":
+            # the new field carries the count; the old field holds something else (Props/C07.v, C07_count_field_*: any old value)
+            cm = (rng.choice([0, max(0, len(dc) - 1), len(dc) + 1, 0xFFFF, rng.randrange(65536)]), len(dc))
+        if ch.get("pad_frame0_to") and f == 0:
+            # exactly that many chunks in frame 0 (empty ignorable chunks appended), counted the way ch["pad_count"] says
+            dc = dc + [ase.RawChunk(IGNORABLE[i % 3], b"") for i in range(ch["pad_frame0_to"] - len(dc))]
+            cm = ch.get("pad_count", cm)
         frames.append(ase.Frame(duration=s["durations"][f], chunks=dc, count_mode=cm, reserved=junk(2)))
     sp = ase.Sprite(width=s["width"], height=s["height"], depth=depth, frames=frames, speed=s["speed"],
                     transparent=s["transparent"], pixel_w=ch["pixel_ratio"][0], pixel_h=ch["pixel_ratio"][1], trailer=ch["trailer"])
